@@ -36,6 +36,7 @@ type Exec struct {
 	maxPaths  int
 	npaths    int
 	trusted   map[string]bool // trusted-base items encountered
+	renamed   map[string]map[string]string // per function: contract identifiers remapped to the current variable names
 	specSigs  map[string]*specSig
 	warnings  []string
 	inlineDepth int
@@ -354,7 +355,7 @@ func (x *Exec) callEffects(c *ssa.CallCommon, in *ssa.Function) map[string]bool 
 	}
 	e["$trace"] = true
 	for _, n := range x.mutatorArrays(c.Value) {
-		for _, hn := range x.reg.heapOrd {
+		for _, hn := range x.reg.HeapNames() {
 			if hn == n || (strings.HasSuffix(n, "*") && strings.HasPrefix(hn, strings.TrimSuffix(n, "*"))) {
 				e[hn] = true
 			}
